@@ -72,6 +72,7 @@ if __name__ == "__main__":
     E["fixed-C11-pretty-save-raises-on-comment"] = ("C11", [{"op": "init", "source": "template:text"}, {"op": "set_part", "kind": "xml", "n": 1, "name": "settings.xml"}, {"op": "save_set", "variants": [{"packaging": "zip", "pretty": True, "target": "bytesio"}]}], "pass")
     E["C01-col-group-mutation"] = ("C01", [RLE([{"cells": [{"v": 1}]}], wrap_cols="columns"), {"op": "set_cell", "c": {"x": 1, "y": 0}, "cell": {"v": 3}}], "violation")
     E["C17-col-group-mutation"] = ("C17", [RLE([{"cells": [{"v": "s2"}]}], cols=[{}, {}], wrap_cols="header"), LAW("span", pre=["rstrip_aggr"], area={"a": [2, 0, 4, 1]}, merge=False)], "violation")
+    E["C03-failed-inplace-folder-save-loses-document"] = ("C03", [{"op": "init", "source": "sample:simple_table_named_range.ods", "how": "folder", "salt": 0}, SAVE(packaging="folder", target="inplace", fault={"site": "mkdir", "k": 1, "errno": "EIO", "partial": True}), SAVE(packaging="folder", target="path")], "violation")
     for fid, ent in E.items():
         prop, ops, expect = ent[:3]
         cfg = ent[3] if len(ent) > 3 else None
